@@ -437,6 +437,18 @@ def run_sampling(ctx):
             Mentions(GT)(lt[0][2][1]) and Mentions(LT)(gts[0][2][1])
         cmpsrc = calls_named(ctx, ft, "zip")
         good = good and cmpsrc and Mentions(Call("rev"))(cmpsrc[-1][1]) and adapters_in(cmpsrc[-1][1]) == ["rev", "rev"]
+        # ... over ALL bytes: neither operand of the zip is a sub-slice, and both accumulators start from "nothing seen yet"
+        if good:
+            z = cmpsrc[-1][1]
+            sliced = [x for x in walk(z) if isinstance(x, tuple) and x[0] == "call" and len(x) > 4 and
+                      x[4] in ("std::ops::Index::index", "std::ops::IndexMut::index_mut")] + \
+                     [x for x in walk(z) if isinstance(x, tuple) and x[0] == "call" and str(x[1]).split("::")[-1] in ("split_at", "split_last", "split_first", "first_chunk", "last_chunk")]
+            inits = []
+            for c in (lt[0], gts[0]):
+                a = c[2][0]
+                inits.append(gt.eb.init_expr(a[1]) if a[0] == "phi" else None)
+            zero_start = all(i is not None and Mentions(Lit(0))(i) and not [x for x in walk(i) if isinstance(x, tuple) and x[0] in ("index", "param")] for i in inits)
+            good = not sliced and zero_start
         req(ctx, rule, "%s:%s:strict-less" % (rule, ft.id), good, "less_than_modulus accumulates ct_lt over all bytes, most significant first",
             "the modulus comparison is not a strict less-than over all bytes from the most significant", loc=ft.loc)
     except Skip:
